@@ -391,8 +391,10 @@ class RecipeReplay:
                         continue        # slice fills: recorded finding F02
                     self.ran("C19")
                     m = re.fullmatch(r"Fill '(.+)' with '(.+)' up to (.+?) by adding: (.*)\.", text)
+                    plate_facts = [{"L": x} for x in added if float(x) > 0 and not self.rounds_to_zero(x)]
                     if not m:
-                        self.report("C19", "step_instruction_unreadable", k19, f"step {i + 1}: {text!r}", ev)
+                        if not lab.reworded(text, plate_facts, [inst.subs[st["solvent"]].name]):
+                            self.report("C19", "step_instruction_unreadable", k19, f"step {i + 1}: {text!r}", ev)
                         continue
                     nr, nc = self.shape[name]
                     rows = [chr(ord("A") + r) for r in range(nr)]
@@ -415,7 +417,8 @@ class RecipeReplay:
                                         twice = addr          # a well named under two amounts: the sentence contradicts itself
                                     stated[r * nc + c] = q
                     if bad:
-                        self.report("C19", "step_instruction_unreadable", k19, f"step {i + 1}: {text!r}", ev)
+                        if not lab.reworded(text, plate_facts, [inst.subs[st["solvent"]].name]):
+                            self.report("C19", "step_instruction_unreadable", k19, f"step {i + 1}: {text!r}", ev)
                         continue
                     if twice:
                         self.report("C19", "step_amount_misstated", dict(k19, target="P"), f"step {i + 1}: {text!r} names a well of {twice} under two different amounts", ev)
@@ -439,7 +442,8 @@ class RecipeReplay:
                     qtxt = m.group(4) if m else None
                 q = lab.stated(qtxt, ("L",)) if qtxt else None
                 if q is None:
-                    self.report("C19", "step_instruction_unreadable", k19, f"step {i + 1}: {text!r}", ev)
+                    if not lab.reworded(text, [{"L": added[0]}] if added[0] != 0 else [], [inst.subs[st["solvent"]].name]):
+                        self.report("C19", "step_instruction_unreadable", k19, f"step {i + 1}: {text!r}", ev)
                 elif not lab.fact_ok(q, added[0], "L"):
                     self.report("C19", "step_amount_misstated", dict(k19, target="C"),
                                 f"step {i + 1}: {text!r}; actually added {float(added[0] * inst.base_scale('L'))!r} L", ev)
@@ -448,7 +452,8 @@ class RecipeReplay:
                 m = re.fullmatch(r"Transfer (.+?) from '(.+)' to '(.+)'\.", text)
                 q = lab.stated(m.group(1)) if m else None
                 if q is None:
-                    self.report("C19", "step_instruction_unreadable", k19, f"step {i + 1}: {text!r}", ev)
+                    if not lab.reworded(text, [{st["u"]: rat(st["q"])}]):
+                        self.report("C19", "step_instruction_unreadable", k19, f"step {i + 1}: {text!r}", ev)
                 elif q[1] != st["u"] or not lab.fact_ok((q[0], q[1], abs(q[0]) * 1e-9), rat(st["q"]), st["u"]):
                     self.report("C19", "step_amount_misstated", k19, f"step {i + 1}: {text!r}; requested {float(rat(st['q']) * inst.base_scale(st['u']))!r} {st['u']}", ev)
 
